@@ -122,7 +122,7 @@ def exps(d, n):
     return [e for e in itertools.product(range(n + 1), repeat=d) if sum(e) <= n]
 
 
-def pulled_back_config(h, mesh, elem, degree, pt=None, free=None, cells=None):
+def pulled_back_config(h, mesh, elem, degree, pt=None, free=None, cells=None, memopt=False):
     """(b): table-independent identity with the real default rule."""
     import skfem as S
     with warnings.catch_warnings():
@@ -131,6 +131,11 @@ def pulled_back_config(h, mesh, elem, degree, pt=None, free=None, cells=None):
         e = make_elem(elem)
         dt = object if h.sym_mode else np.float64
         kw = {} if cells is None else dict(elements=np.array(cells, dtype=np.int32))
+        if memopt:
+            # the memory-optimised affine mapping restricted to the integrated cells
+            import importlib
+            MA = importlib.import_module('skfem.mapping.mapping_affine').MappingAffine
+            kw['mapping'] = MA(m, tind=np.array(cells, dtype=np.int32))
         b = S.CellBasis(m, e, intorder=degree, **kw)
         P, t = m.doflocs, np.asarray(m.t)
         d = P.shape[0]
@@ -319,6 +324,7 @@ def build_configs(tier, seed):
     for deg in ((2, 4) if quick else (1, 2, 3, 4, 6)):
         add('pulled-back/tri2/deg=%d' % deg, pulled_back_config, mesh='tri2', elem='ElementTriP1', degree=deg)
         add('pulled-back/tri2perm/deg=%d/cells=1' % deg, pulled_back_config, mesh='tri2perm', elem='ElementTriP1', degree=deg, cells=[1])
+    add('pulled-back/tri3fan/deg=2/cells=2,0/subset-mapping', pulled_back_config, mesh='tri3fan', elem='ElementTriP1', degree=2, cells=[2, 0], memopt=True)
     add('pulled-back/line3perm/deg=3', pulled_back_config, mesh='line3perm', elem='ElementLineP1', degree=3)
     add('pulled-back/tet2/deg=2/free=4', pulled_back_config, mesh='tet2', elem='ElementTetP1', degree=2, free=[4], timeout=900)
     add('pulled-back/quad2/deg=2/free=2', pulled_back_config, mesh='quad2', elem='ElementQuad1', degree=2, free=[2], timeout=900)
